@@ -13,6 +13,8 @@ func init() {
 		},
 		NotDecided: []string{"the empty key (maps to the empty name; recorded as an assumption)", "collisions of two Docker keys that sanitise to the same name", "that the representatives cover every rune: they cover both sides of every comparison constant in the ASCII range and letters/digits/symbols outside it"},
 		Rules: func(r *Run) {
+			ruleDockerMatch(r)
+			ruleFetchContainers(r) // a container is found under the sanitised name of its labels: the daemon is not asked to pre-filter by names it does not know
 			ruleKeyToLabel(r)
 			ruleIdentPredicates(r)
 			ruleSanitiserSites(r)
